@@ -298,7 +298,11 @@ def _(H):
 def _(H):
     r = H.rxn()
     q = H.rng.random()
-    if q < 0.6:
+    if q < 0.15:
+        r.id = H.fresh("long") + "x" * 300  # beyond GLPK's name length
+    elif q < 0.3:
+        r.id = H.fresh("long") + "y" * 245  # the id fits, the derived reverse-variable name does not
+    elif q < 0.6:
         r.id = H.fresh("bad ") + " id"  # refused by the solver interface
     elif q < 0.8:
         o = H.rxn()
@@ -314,7 +318,9 @@ def _(H):
 def _(H):
     m = H.met()
     q = H.rng.random()
-    if q < 0.6:
+    if q < 0.2:
+        m.id = H.fresh("long") + "z" * 300 + "_c"  # beyond GLPK's name length
+    elif q < 0.6:
         m.id = H.fresh("bad ") + " met_c"
     elif q < 0.8:
         o = H.met()
@@ -497,9 +503,10 @@ def _(H):
             ms.append(m)
     destructive = H.rng.random() < 0.35
     single = len(ms) == 1 and H.rng.random() < 0.4
-    H.model.remove_metabolites(ms[0] if single else ms, destructive=destructive)
+    repeat = not single and H.rng.random() < 0.15  # a metabolite named twice is removed once (as remove_reactions does)
+    H.model.remove_metabolites(ms[0] if single else (ms + [ms[0]] if repeat else ms), destructive=destructive)
     H.spare_mets.extend(ms)
-    return {"ids": _ids(ms), "destructive": destructive, "single": single}
+    return {"ids": _ids(ms), "destructive": destructive, "single": single, "repeated_entry": repeat}
 
 
 @op("metabolite.remove_from_model", "edit", "rev", weight=0.5)
@@ -690,6 +697,21 @@ def _(H):
     return {"id": r.id, "factor": c}
 
 
+@op("reaction*=.failing", "edit", "rev", "fail", weight=0.3)
+def _(H):
+    r = H.rxn_with_mets()
+    r *= 0  # nothing sensible to scale to: must be refused with the reaction untouched
+    return {"id": r.id, "factor": 0}
+
+
+@op("detached.copy", "edit", "rev", "detached", weight=0.6)
+def _(H):
+    # copying a reaction that has left the model must not touch the model's metabolites and genes it still uses
+    r = _detached(H)
+    c = r.copy()
+    return {"id": r.id, "copy_has_model": c.model is not None}
+
+
 @op("reaction.reaction=", "edit", "rev")
 def _(H):
     r = H.rxn()
@@ -876,10 +898,26 @@ def _(H):
     return {"form": form, "coefs": desc}
 
 
-@op("model.objective=.failing", "edit", "rev", "fail", weight=0.4)
+@op("model.objective=.failing", "edit", "rev", "fail", weight=0.6)
 def _(H):
-    H.model.objective = "no_such_reaction"
-    return {}
+    import cobra
+    from cobra.util.solver import set_objective
+
+    q = H.rng.random()
+    if q < 0.35 or not len(H.model.reactions):
+        H.model.objective = "no_such_reaction"
+        return {"form": "unknown id"}
+    # a reaction that is not part of the model, alone or behind one that is: nothing may be left half done
+    foreign = cobra.Reaction(H.fresh("foreign"))
+    own = H.rxn()
+    if q < 0.55:
+        H.model.objective = {foreign: 1}
+        return {"form": "dict with a reaction outside the model"}
+    if q < 0.8:
+        H.model.objective = {own: 2, foreign: 1}
+        return {"form": "dict: model reaction, then a reaction outside the model"}
+    set_objective(H.model, {own: 2.0, foreign: 1.0}, additive=True)
+    return {"form": "set_objective(additive=True) with a reaction outside the model"}
 
 
 @op("reaction.objective_coefficient=", "edit", "rev", weight=1.5)
@@ -928,6 +966,31 @@ def _(H):
         desc = {"variable": v.name, "n": len(what)}
     H.track_added(before)
     return desc
+
+
+@op("model.add_cons_vars.failing", "solver", "rev", "fail", weight=0.5)
+def _(H):
+    # a name the solver already uses - behind a fresh item, so that a lazy failure would leave half a list added
+    m = H.model
+    m.solver.update()
+    taken = sorted(v.name for v in m.solver.variables)
+    fresh = m.problem.Variable(H.fresh("uv_"), lb=0, ub=1)
+    q = H.rng.random()
+    if q < 0.5 and taken:
+        clash = m.problem.Variable(H.rng.choice(taken), lb=0, ub=1)
+        form = "fresh variable, then a variable named like an existing one"
+    elif q < 0.75:
+        clash = m.problem.Variable(fresh.name, lb=0, ub=2)
+        form = "two variables of one name"
+    else:
+        rows = sorted(c.name for c in m.solver.constraints)
+        if not rows:
+            raise Skip()
+        clash = m.problem.Constraint(fresh * 1, lb=0, ub=1, name=H.rng.choice(rows))
+        form = "fresh variable, then a constraint named like an existing one"
+    m.add_cons_vars([fresh, clash])
+    m.solver.update()  # a lazy solver interface reports the collision only here
+    return {"form": form}
 
 
 @op("model.remove_cons_vars", "solver", "rev")
